@@ -355,3 +355,27 @@ class port_impedance_with_dangling_node:
         return {'Z(b,0) = R1 || (R2 + R3)': eq(result[0] * (R1 + R2 + R3), R1 * (R2 + R3)),
                 'Z(c,0) = R3 || (R1 + R2)': eq(result[1] * (R1 + R2 + R3), R3 * (R1 + R2)),
                 'Z(c,b) = R2 || (R1 + R3)': eq(result[2] * (R1 + R2 + R3), R2 * (R1 + R3))}
+
+
+@contract('CircuitCalculator.Network.transformers.remove_ideal_voltage_sources', props=['C16'], bounded='one topology; the exemption list holds an element that is itself a short circuit')
+class exempt_short_is_left_untouched:
+    def inputs(g):
+        which = g.choice('which', ['zero-volt ideal source', 'short_circuit element'])
+        kept = elm.voltage_source('K', 0) if which == 'zero-volt ideal source' else elm.short_circuit('K')
+        return dict(net=Network([Branch('a', '0', elm.voltage_source('Vs', g.complex('V'))), Branch('a', 'b', kept),
+                                 Branch('b', 'c', elm.impedance('Z1', g.complex('Z1'))), Branch('c', '0', elm.voltage_source('V2', g.complex('V2')))], '0'))
+
+    def requires(net):
+        return net['Vs'].element.V != 0 and net['V2'].element.V != 0 and net['Z1'].element.Z != 0
+
+    def call(f, net):
+        keep = [net['K'].element]
+        return (f(net, keep=keep), trf.passive_network(net, keep=keep), trf.remove_short_circuit_elements(net, keep=keep))
+
+    def ensures(result, net):
+        out = {}
+        for name, r in zip(('remove_ideal_voltage_sources', 'passive_network', 'remove_short_circuit_elements'), result):
+            out[name + ': exempt element untouched'] = any([b.id == 'K' for b in r.branches]) and eq(r['K'].element, net['K'].element) and r['K'].node2 == 'b'
+            out[name + ': Z1 keeps its terminals towards the exempt element'] = r['Z1'].node1 == 'b'
+        out['non-exempt ideal sources are contracted'] = [b.id for b in result[0].branches] == ['K', 'Z1'] and result[0]['K'].node1 == '0' and result[0]['Z1'].node2 == '0'
+        return out
